@@ -34,7 +34,10 @@ def _patches():
             out.append(("seeded/" + os.path.basename(d), prop, pf))
     sel = os.environ.get("VERIF_MUTANTS")
     if sel:
-        out = [x for x in out if any(s_ and s_ in x[0] for s_ in sel.split(","))]
+        pats = [s_ for s_ in sel.split(",") if s_]
+        # a pattern naming a patch exactly selects only that patch; otherwise substring match
+        names = {x[0] for x in out}
+        out = [x for x in out if any((s_ == x[0]) if s_ in names else (s_ in x[0]) for s_ in pats)]
     return out
 
 
